@@ -126,6 +126,9 @@ _beta_cache = {}
 
 
 def _beta(f):
+    # set/dict comprehension terms are named definitions now (values.mk_lambda); nothing left to reduce, and z3's
+    # simplifier reshapes sequence terms in ways the external solvers handle worse
+    return f
     k = f.get_id()
     if k not in _beta_cache:
         txt = None
@@ -151,7 +154,7 @@ def _z3_check(hyps, neg, nl, timeout_ms):
 def prove(ob, axioms=(), timeout_ms=60000, use_external=True):
     """Portfolio: z3 API briefly, then cvc5 and z3 4.8 on the dump, then z3 API with the full budget."""
     t0 = time.time()
-    if not ob.expect_sat and (z3.is_true(ob.goal) or z3.is_true(z3.simplify(ob.goal))):
+    if not ob.expect_sat and z3.is_true(ob.goal):
         # the clause was decided while the path was executed (a Python-level fact about the trace / heap shape)
         return Result(ob, "discharged", "by-evaluation", 0.0)
     # beta-reduce applications of lambda terms (set/dict algebra) before anything else: z3's array theory gives
